@@ -7,6 +7,7 @@ import (
 	"errors"
 	"fmt"
 	"os"
+	"slices"
 	"sort"
 	"strings"
 	"testing"
@@ -192,6 +193,23 @@ func dropOnRetry(t extension.Type) dtls.Option {
 	})
 }
 
+// offerUnconfiguredSuites is a ClientHello hook that puts cipher suites the client is NOT configured with in
+// front of its offer (in every ClientHello of the handshake, so the cookie exchange sees consistent hellos): the
+// wire offer is wider than the client's policy; a server that picks one of them must be refused by the client.
+func offerUnconfiguredSuites(extra ...uint16) dtls.Option {
+	return dtls.WithClientHelloMessageHook(func(m handshake.MessageClientHello) handshake.Message {
+		// idempotent: a second ClientHello may be built from the first one's (already widened) image
+		var add []uint16
+		for _, id := range extra {
+			if !slices.Contains(m.CipherSuiteIDs, id) {
+				add = append(add, id)
+			}
+		}
+		m.CipherSuiteIDs = append(add, m.CipherSuiteIDs...)
+		return &m
+	})
+}
+
 func devCatalogue() []dev {
 	return []dev{
 		// signature schemes
@@ -277,6 +295,19 @@ func devCatalogue() []dev {
 		{"hook", "hook=ch2-drops-alpn", func(c, s *world.Cfg) {
 			c.ALPN, s.ALPN = []string{"a"}, []string{"a"}
 			c.Extra = append(c.Extra, dropOnRetry(extension.TypeALPN))
+		}},
+		// the wire offer is wider than the client's configured suite list (ClientHello hook): the configured list,
+		// not the wire, is the client's policy
+		{"hook", "hook=ch-offers-unconfigured-suites-first", func(c, s *world.Cfg) {
+			if c.MaxV == 13 && c.MinV == 13 {
+				c.Suites = []dtls.CipherSuiteID{dtls.TLS_AES_128_GCM_SHA256}
+			} else if c.MaxV == 13 {
+				c.Suites = []dtls.CipherSuiteID{dtls.TLS_AES_128_GCM_SHA256, dtls.TLS_ECDHE_ECDSA_WITH_AES_128_GCM_SHA256}
+			} else if len(c.Suites) == 0 {
+				c.Suites = []dtls.CipherSuiteID{dtls.TLS_ECDHE_ECDSA_WITH_AES_128_GCM_SHA256}
+			}
+			c.Extra = append(c.Extra, offerUnconfiguredSuites(uint16(dtls.TLS_AES_256_GCM_SHA384), uint16(dtls.TLS_CHACHA20_POLY1305_SHA256),
+				uint16(dtls.TLS_ECDHE_ECDSA_WITH_AES_256_GCM_SHA384), uint16(dtls.TLS_ECDHE_RSA_WITH_AES_256_GCM_SHA384), uint16(dtls.TLS_PSK_WITH_AES_128_CCM_8)))
 		}},
 		{"hook", "hook=ch2-drops-ems", func(c, s *world.Cfg) { c.Extra = append(c.Extra, dropOnRetry(extension.TypeExtendedMasterSecret)) }},
 		{"hook", "hook=ch2-drops-renegotiation-info", func(c, s *world.Cfg) { c.Extra = append(c.Extra, dropOnRetry(extension.TypeRenegotiationInfo)) }},
